@@ -10,6 +10,12 @@
   `tiling_ok_b` on the implementation's solved grid; a complete solution inside the action space is searched
   in Python and validated by the verified `tiles_b` / `plays_b`; exhaustive failure is confirmed by the model's
   verified `solvable_b` (completeness theorem in Proofs/FlatPack_Solve.v)
+- generator's OWN solution (block k back at the corner of its bounding box, rotation undone): the verified condition
+  `own_ok_b` (Proofs/FlatPack_OwnSol.v: own solution tiles / is playable <-> own_ok_b, for all sizes and draws) is
+  evaluated on the model's solved grid and recomputed with numpy on the implementation's; when it holds the own
+  solution is PLAYED on the real env (every action accepted by the mask, final grid = the generator's solved grid)
+  and the Python search must have found a solution; when it fails the instance is only counted (the unsolvable ones
+  are reported by the exhaustive search as before)
 Rewards: the model yields the integer numerator (cells of the placed block / 1 per block); the float32 value is
 compared as round(reward*den) exactly plus |reward - num/den| <= 1e-6."""
 import numpy as np
@@ -232,6 +238,7 @@ def analyze(kit):
         big = nact > 1500
         label = cfg["label"]
         step_all = None
+        step_one = None
         for p in (0.0, 0.35):
             roll = kit.roll(cfg, p)
             _, st, ts, ac, fl, k0 = roll
@@ -341,6 +348,30 @@ def analyze(kit):
                     [1] + ints(base) + ints(solved) + [1] + ints(blocks), meta)
                 add("flat_pack_tiling_io", [nrb, ncb] + ints(solved), "tiling", None, [1], dict(meta, solved=solved.tolist()))
                 sol, exhausted = find_solution(blocks, R, C, budget=(150000 if q else 2000000))
+                # ---- the generator's own solution (numpy, from the implementation's solved grid) and its play on the real env
+                own = []
+                for p_ in range(N):
+                    cells = np.argwhere(solved == perm[p_] + 1)
+                    own.append(((4 - rots[perm[p_]]) % 4, int(cells[:, 0].min()), int(cells[:, 1].min())) if ok and len(cells) else (0, 0, 0))
+                own_ok = bool(ok and all(r0 <= R - 3 and c0 <= C - 3 for (_, r0, c0) in own))
+                played = None
+                if own_ok:
+                    if step_one is None:
+                        step_one = jax.jit(env.step)
+                    s_cur, played = s0, True
+                    for p_, (kk, r0, c0) in enumerate(own):
+                        if not bool(np.asarray(s_cur.action_mask)[p_, kk, r0, c0]):
+                            played = False
+                            break
+                        s_cur, _ = step_one(s_cur, jnp.asarray([p_, kk, r0, c0], jnp.int32))
+                    if played and not np.array_equal(np.asarray(s_cur.grid), solved):
+                        played = False
+                    if not played:
+                        kit.fail(["C10"], "the generator's own solution lies in the action space but is NOT playable on the real env (a placement masked out, or the final grid differs from the solved grid)",
+                                 dict(cfg=label, op="own-solution-play"), dict(meta, own=own, blocks=blocks.tolist(), solved=solved.tolist()))
+                res["C10"].count("own-solution-playable" if own_ok else "own-solution-outside-action-space")
+                add("flat_pack_ownsol_io", args, "ownsol", None, None,
+                    dict(meta, own=[list(x) for x in own], own_ok=own_ok, py_solved=(sol is not None), py_exhausted=exhausted, ok=ok))
                 if sol is not None:
                     add("flat_pack_solution_io", ecfg + ints(blocks) + [x for krc in sol for x in krc], "solution", None, [1, 1], dict(meta, sol=sol, blocks=blocks.tolist()))
                     res["C10"].count("solvable")
@@ -460,6 +491,20 @@ def analyze(kit):
             if got != [1]:
                 kit.fail(["C10"], "the generator's solved grid is not an exact tiling by connected blocks fitting their 3x3 windows",
                          dict(cfg=m["cfg"], op="tiling"), m)
+        elif kind == "ownsol":
+            res["C10"].evaluations += 1
+            res["C10"].count("own-solution-checked")
+            n3 = len(got) - 3
+            mown = [got[3 + 3 * t: 6 + 3 * t] for t in range(n3 // 3)]
+            if m["ok"] and (got[0] != int(m["own_ok"]) or mown != m["own"]):
+                kit.fail(["C10"], "model's own solution / own_ok_b differs from the one recomputed on the implementation's solved grid",
+                         dict(cfg=m["cfg"], op="corr-ownsol"), dict(m, model=got))
+            if not (got[0] == got[1] == got[2]):
+                kit.fail(["C10"], "own_ok_b, tiles_b and plays_b of the own solution disagree (contradicts random_generator_own_solution)",
+                         dict(cfg=m["cfg"], op="ownsol-theorem"), dict(m, model=got[:3]))
+            if got[0] == 1 and not m["py_solved"] and m["py_exhausted"]:
+                kit.fail(["C10"], "own_ok_b holds but the exhaustive python search found no solution (harness search is wrong)",
+                         dict(cfg=m["cfg"], op="harness-search"), dict(m, model=got[:3]))
         elif kind == "solution":
             res["C10"].evaluations += 1
             res["C06"].evaluations += 1
